@@ -816,7 +816,7 @@ Section P.
     2:{ destruct (gis_fixed ks); reflexivity. }
     rewrite N.sub_diag. cbn [bind]. unfold gseq_end. autorewrite with gst. rewrite Hdec.
     rewrite gvb_dict. cbv zeta. set (ps := geparts e ks vs l 0) in *. set (data := concat ps) in *.
-    rewrite ?fixed_sized_spec.
+    change fixed_sized with gis_fixed.
     destruct (gis_fixed ks && gis_fixed vs) eqn:Hfx.
     - rewrite (reframe st _ _ ks d' (SDict ks vs) _ (eq_sym Hs) eq_refl). reflexivity.
     - rewrite app_nil_r. replace (g_written st + len p + len data - (g_written st + len p)) with (len data) by lia.
@@ -842,3 +842,81 @@ Section P.
     - apply good_nothing. - now apply good_just.
   Qed.
 End P.
+
+(* ---------- top level ---------- *)
+Lemma forallb_and {A} (f g : A -> bool) l : forallb (fun x => f x && g x) l = forallb f l && forallb g l.
+Proof.
+  induction l as [|x r IH]; [reflexivity|]. cbn [forallb]. rewrite IH.
+  destruct (f x), (g x), (forallb f r), (forallb g r); reflexivity.
+Qed.
+Lemma forallb_ext_in {A} (f g : A -> bool) l : Forall (fun x => f x = g x) l -> forallb f l = forallb g l.
+Proof. induction 1 as [|x r Hx Hr IH]; [reflexivity|]. cbn [forallb]. now rewrite Hx, IH. Qed.
+
+Lemma all_nodes_and p q : forall v, all_nodes (fun x => p x && q x) v = all_nodes p v && all_nodes q v.
+Proof.
+  induction v using gval_ind'; try (cbn [all_nodes]; now rewrite ?andb_true_r).
+  - cbn [all_nodes]. rewrite IHv. destruct (p (GVariant v)), (q (GVariant v)), (all_nodes p v), (all_nodes q v); reflexivity.
+  - rewrite !all_nodes_array. rewrite (forallb_ext_in _ (fun x => all_nodes p x && all_nodes q x) l H), forallb_and.
+    destruct (p (GArray el l)), (q (GArray el l)), (forallb (all_nodes p) l), (forallb (all_nodes q) l); reflexivity.
+  - rewrite !all_nodes_dict.
+    rewrite (forallb_ext_in _ (fun q0 => (all_nodes p (fst q0) && all_nodes p (snd q0)) && (all_nodes q (fst q0) && all_nodes q (snd q0))) l).
+    2:{ eapply Forall_impl; [|exact H]. intros a [H1 H2]. cbn beta. rewrite H1, H2.
+        destruct (all_nodes p (fst a)), (all_nodes q (fst a)), (all_nodes p (snd a)), (all_nodes q (snd a)); reflexivity. }
+    rewrite forallb_and.
+    destruct (p (GDict ks vs l)), (q (GDict ks vs l)), (forallb (fun q0 => all_nodes p (fst q0) && all_nodes p (snd q0)) l),
+      (forallb (fun q0 => all_nodes q (fst q0) && all_nodes q (snd q0)) l); reflexivity.
+  - rewrite !all_nodes_struct. rewrite (forallb_ext_in _ (fun x => all_nodes p x && all_nodes q x) l H), forallb_and.
+    destruct (p (GStruct l)), (q (GStruct l)), (forallb (all_nodes p) l), (forallb (all_nodes q) l); reflexivity.
+  - cbn [all_nodes]. rewrite IHv. destruct (p (GMaybe cs (Some v))), (q (GMaybe cs (Some v))), (all_nodes p v), (all_nodes q v); reflexivity.
+Qed.
+
+Lemma pre_split e v : known_c05 e v = false -> gsmall e v = true -> gplain v = true -> pre e v = true.
+Proof.
+  intros Hk Hs Hp. unfold pre, node_pre. rewrite !all_nodes_and.
+  unfold known_c05 in Hk. apply negb_false_iff in Hk. unfold gsmall in Hs. unfold gplain, node_plain in Hp.
+  rewrite Hk, Hs. cbn [andb]. exact Hp.
+Qed.
+
+(* values without descriptors are not changed by the descriptor numbering *)
+Lemma renum_plain : forall v k, gplain v = true -> renum v k = v.
+Proof.
+  induction v using gval_ind'; intros k Hp; try reflexivity.
+  - cbn [renum]. unfold gplain in *. cbn [all_nodes] in Hp. cbn [node_plain andb] in Hp. now rewrite IHv.
+  - discriminate.
+  - cbn [renum]. unfold gplain in Hp. rewrite all_nodes_array in Hp. cbn [node_plain andb] in Hp. f_equal.
+    revert k Hp. induction H as [|x r Hx Hr IH]; intros k Hp; [reflexivity|].
+    cbn [forallb] in Hp. apply andb_true_iff in Hp as [H1 H2]. rewrite (Hx k H1). f_equal. now apply IH.
+  - cbn [renum]. unfold gplain in Hp. rewrite all_nodes_dict in Hp. cbn [node_plain andb] in Hp. f_equal.
+    revert k Hp. induction H as [|[key x] r [Hx1 Hx2] Hr IH]; intros k Hp; [reflexivity|].
+    cbn [forallb fst snd] in *. apply andb_true_iff in Hp as [H1 H2]. apply andb_true_iff in H1 as [H1 H3].
+    rewrite (Hx1 k H1), (Hx2 _ H3). f_equal. now apply IH.
+  - cbn [renum]. unfold gplain in Hp. rewrite all_nodes_struct in Hp. cbn [node_plain andb] in Hp. f_equal.
+    revert k Hp. induction H as [|x r Hx Hr IH]; intros k Hp; [reflexivity|].
+    cbn [forallb] in Hp. apply andb_true_iff in Hp as [H1 H2]. rewrite (Hx k H1). f_equal. now apply IH.
+  - cbn [renum]. unfold gplain in *. cbn [all_nodes] in Hp. cbn [node_plain andb] in Hp. now rewrite IHv.
+Qed.
+
+Definition encodable (e : endian) (v : gval) : Prop :=
+  gwf v = true /\ known_c05 e v = false /\ gsmall e v = true /\ gplain v = true /\ gwithin_limits v = true.
+
+Theorem gser_top_exact e pos v : encodable e v ->
+  gser_top e pos (gsig v) (sval_of v) = Ok (gv_marshal e pos v, []).
+Proof.
+  intros (Hw & Hk & Hs & Hp & Hl). unfold gser_top.
+  rewrite (gser_good e v (ginit e pos (gsig v) (FdsMode []))); try reflexivity; try assumption.
+  - cbn [bind]. rewrite gout_gwr. unfold gv_marshal. rewrite (renum_plain v 0 Hp).
+    unfold gabs, gout, frev. cbn [ginit g_rout rev_append g_pos0 g_written g_fds gwr app]. now rewrite N.add_0_r.
+  - now apply pre_split.
+  - split; cbn; lia.
+Qed.
+
+Theorem gsize_top_exact e pos v : encodable e v ->
+  gsize_top e pos (gsig v) (sval_of v) = Ok (len (gv_marshal e pos v), 0).
+Proof.
+  intros (Hw & Hk & Hs & Hp & Hl). unfold gsize_top.
+  rewrite (gser_good e v (ginit e pos (gsig v) (NumMode 0))); try reflexivity; try assumption.
+  - cbn [bind]. unfold gv_marshal. rewrite (renum_plain v 0 Hp). autorewrite with gst.
+    unfold gabs. cbn [ginit g_pos0 g_written g_fds gwr]. now rewrite N.add_0_r, N.add_0_l.
+  - now apply pre_split.
+  - split; cbn; lia.
+Qed.
